@@ -42,13 +42,26 @@ FILE_ROOT = '<writers::file_log_writer::FileLogWriter as writers::log_writer::Lo
 
 
 def emission_bodies(ctx, roots=(FILE_ROOT,)):
-    """bodies reachable from the given LogWriter::write roots that call a FormatFunction pointer"""
-    out = []
-    for p in sorted(ctx.cg.reachable(list(roots), spawn=False, stop=STOP_AT)):
+    """bodies reachable from the given LogWriter::write roots that call a FormatFunction pointer.  A private helper that ONLY formats into a buffer it is
+    given (no write_all / write_buffer / send / print of its own) is not an emitting body: the record path is judged in the bodies that call it (the
+    interpreter inlines the helper there)"""
+    reach = sorted(ctx.cg.reachable(list(roots), spawn=False, stop=STOP_AT))
+    EMITS = r'::write_all$|State::write_buffer$|Sender::<T>::(send|try_send)$|^std::io::_e?print$|util::write_buffered$'
+    out, seen = [], set()
+    work = [p for p in reach if ctx.f.bodies[p].promoted is None and any(re.search(FMT, callee_name(t)) for bb, t in ctx.f.bodies[p].calls())]
+    while work:
+        p = work.pop(0)
+        if p in seen:
+            continue
+        seen.add(p)
         b = ctx.f.bodies[p]
-        if b.promoted is None and any(re.search(FMT, callee_name(t)) for bb, t in b.calls()):
-            out.append(b)
-    return out
+        if b.kind != 'Closure' and not any(re.search(EMITS, callee_name(t)) for bb, t in b.calls()):
+            callers = sorted({a for (a, _bb, _k) in ctx.cg.callers.get(p, []) if a in reach})
+            if callers:
+                work += callers
+                continue
+        out.append(b)
+    return sorted(out, key=lambda b_: b_.path)
 
 
 def run(R, ctx):
